@@ -1887,7 +1887,13 @@ dt_get_base(void)
 {
 	if (UNLIKELY(base.typ == DT_UNK)) {
 		/* singleton */
-		base = dt_datetime((dt_dttyp_t)DT_YMD);
+		struct dt_dt_s now = dt_datetime((dt_dttyp_t)DT_YMD);
+
+		if (dt_sandwich_only_t_p(base)) {
+			/* a time-only base has been set, keep that */
+			now.t = base.t;
+		}
+		base = now;
 	}
 	return base;
 }
